@@ -34,8 +34,8 @@ BIG = {
     "hh": [(100, 1000, 5), (20, 64, 4)],            # (number of hitters, width, depth)
     "st": [(20, 1000, 5), (5, 50, 3)],              # (threshold, width, depth)
     "bits": [32771, 8192, 65536, 524309, 8191, 32768, 524288],     # Bitarray sizes at and just past 1 KiB, 4 KiB, 8 KiB, 64 KiB of storage
-    "cko": [(20000, 4, 500, True), (500, 4, 500, False), (1000, 3, 300, True), (100, 2, 500, True, "er"), (1500, 2, 300, False)],   # > 65536 slots; nearly full with max_swaps > 128; odd bucket size
-    "ccko": [(1024, 4, 500, True), (40000, 4, 500, False), (1000, 4, 500, True, "fs4"), (500, 4, 500, False), (100, 2, 500, True, "er"), (1000, 3, 300, True)],   # >= 1024 buckets with automatic expansion; > 131072 bins
+    "cko": [(20000, 4, 500, True), (1000, 3, 300, True, "dflt"), (500, 4, 500, False), (100, 2, 500, True, "er"), (1500, 2, 300, False)],   # > 65536 slots; nearly full with max_swaps > 128; odd bucket size
+    "ccko": [(1024, 4, 500, True), (40000, 4, 500, False), (1000, 4, 500, True, "fs4"), (500, 4, 500, False), (100, 2, 500, True, "er"), (1000, 3, 300, True, "dflt")],   # >= 1024 buckets with automatic expansion; > 131072 bins
     "qf": [(8, True), (7, False), (8, False), (7, False), (8, False), (7, False), (9, False), (9, True)],   # dense, nearly full tables: long wrapping clusters
 }
 
@@ -75,6 +75,7 @@ class Rec:
         self.path = os.path.join(tmp, f"s{ti}.dat")
         self.hf = None
         self.fs = 2
+        self.dflt = False
         self.cfg = cfg
         self.erand = _random.Random(rnd.getrandbits(32))     # which entry point realises an action (add / add_alt, check / check_alt / in)
         self.make()
@@ -142,11 +143,14 @@ class Rec:
                 mode = self.cfg[4] if len(self.cfg) > 4 else None
             else:
                 cap, bs, ms, auto = rnd.choice([(16, 2, 20, True), (64, 4, 50, False), (10, 3, 30, True)])
-                mode = rnd.choice([None, None, "fs4"])
-            self.fs = 4 if mode == "fs4" else rnd.choice([2, 3])
+                mode = rnd.choice([None, None, "fs4", "dflt"])
+            self.fs = 4 if mode in ("fs4", "dflt") else rnd.choice([2, 3])
+            self.dflt = mode == "dflt"       # constructed with the default fingerprint width: nothing to re-supply after a load
             if mode == "er":     # sized by error rate: the fingerprint width is derived, and must be derived alike after a reload
                 self.er = 0.05
                 self.obj = cls.init_error_rate(self.er, capacity=cap, bucket_size=bs, max_swaps=ms, auto_expand=auto)
+            elif mode == "dflt":
+                self.obj = cls(capacity=cap, bucket_size=bs, max_swaps=ms, auto_expand=auto)
             else:
                 self.obj = cls(capacity=cap, bucket_size=bs, max_swaps=ms, auto_expand=auto, finger_size=self.fs)
             tr.update(m=cap, k=bs, auto=auto)
@@ -307,7 +311,7 @@ class Rec:
                     loads = [("frombytes", lambda: cls.frombytes(data)), ("filepath", lambda: cls(filepath=path))]
             for name, mk in loads:
                 g = mk()
-                if kind in ("cko", "ccko") and not self.er:
+                if kind in ("cko", "ccko") and not self.er and not self.dflt:
                     g.fingerprint_size = self.fs
                 if kind in ("cko", "ccko") and self.er:
                     self.hcheck(g.fingerprint_size_bits == obj.fingerprint_size_bits, "C07.stable_across_reload.scale", kind=kind, loaded_bits=g.fingerprint_size_bits, original_bits=obj.fingerprint_size_bits, capacity=obj.capacity)
@@ -626,7 +630,8 @@ class Rec:
                 g = type(obj).frombytes(bytes(obj), error_rate=self.er)
             else:
                 g = type(obj).frombytes(bytes(obj))
-                g.fingerprint_size = self.fs
+                if not self.dflt:
+                    g.fingerprint_size = self.fs
             g.auto_expand = obj.auto_expand
             self.obj = g
         else:
